@@ -208,8 +208,9 @@ claim("C12", "other",
       "chain's dense operator; hop_expr0/1/2 = projection of H psi on every tangent "
       "direction; TTNEnviron incremental updates = fresh environments; the REAL one- and two-site projector-splitting sweeps with the local Krylov propagator replaced by an "
       "arbitrary-output contract stub: effective operator at every local step = projection of H on the state as it is at that step, local steps +-tau/2 summing to tau per node and "
-      "-tau per bond, identity propagator => state unchanged; two-site scheme with non-uniform per-node bond limits: every bond obeys the limit of its own node.",
-      "NOT claimed: accuracy orders, norm/energy conservation, variable-mean-field scheme (Krylov / solve_ivp / regularised inversion are float iterations outside the family); "
+      "-tau per bond, identity propagator => state unchanged; two-site scheme with non-uniform per-node bond limits: every bond obeys the limit of its own node. Variable mean field: "
+      "time_derivative_vmf = (1 - A A^h) F_i (S_i^-1)^T per node against dense references (eigh by contract, 2-3 node trees), violations reported through float-build twins.",
+      "NOT claimed: accuracy orders, norm/energy conservation, the ODE integration of the variable-mean-field scheme (Krylov / solve_ivp are float iterations outside the family); "
       "sector conservation rests on C11/C06 label handling; canonicalise/compress are identity stubs in the P&C harness (C11 shows they preserve the vector).",
       "symbolic execution of the real tree evolution code with Krylov/LAPACK contract stubs + independent einsum oracle + z3",
       "DESIGN.md section 1, C12")
